@@ -100,6 +100,12 @@ let handle = function
     (match apply_all s work with
      | Err e -> "err " ^ err_name e
      | Ok s' -> dump (finish s'))
+  | "tracker" ->
+    (* the CFI marks of the code blocks in the order the tracker visits them, then the points to ask about *)
+    let marks = listn (fun () -> let i = nn () in let o = next_z () in
+                        let m = (match next () with "S" -> MStart | "E" -> MEnd | _ -> MOther) in ((i, o), m)) in
+    let ivs = tracker marks in
+    Stdlib.String.concat "" (listn (fun () -> let i = nn () in let o = next_z () in if in_procedure ivs (i, o) then "1" else "0"))
   | "resolve" ->
     (* registrations of one block, in registration order: offset, replaced length; the id is the position *)
     let regs = List.mapi (fun i (o, l) -> (o, (i, l))) (listn (fun () -> let o = next_z () in let l = next_z () in (o, l))) in
